@@ -209,14 +209,14 @@ theorem owned_of_reach {ok : Sys → Action → Prop} (hok : ∀ s a, ok s a →
 /-- `liveGetTask` without the ownership test -/
 def liveGetTask0 (s : Sys) (name : String) : Option Task :=
   match findPod s.pods name with
-  | some p => podTask p
+  | some p => podTask s.clock p
   | none => none
 
 /-- `getTaskForRef` without the ownership tests -/
 def getTaskForRef0 (s : Sys) (ref : TaskRef) : Option Task :=
   match findPod s.podCache ref.name with
   | some p =>
-    match podTask p with
+    match podTask s.clock p with
     | none => none
     | some t =>
       if ref.finishTimestamp.isNone || t.ref.finishTimestamp.isSome then some t
@@ -242,6 +242,6 @@ theorem getTaskForRef_eq0 {j0 jo : JobObj} {s : Sys} (ho : Owned j0 s) (hu : jo.
   | some p =>
     have := ho.cache p (findPod_some hp).1
     simp only [this, hu, decide_true, Bool.not_true, Bool.false_eq_true, ↓reduceIte, liveGetTask_eq0 ho hu]
-    cases podTask p <;> rfl
+    cases podTask s.clock p <;> rfl
 
 end Furiko.JobCtl
